@@ -195,10 +195,16 @@ class ECollection(PyEcoreValue):
             return
 
         opposite_name = eOpposite._name
-        if eOpposite.many and not remove:
-            owner.__getattribute__(opposite_name).append(new_value, False)
-        elif eOpposite.many and remove:
-            owner.__getattribute__(opposite_name).remove(new_value, False)
+        if eOpposite.many:
+            opposite = owner.__getattribute__(opposite_name)
+            if opposite is self:
+                # self-opposite collection holding its own owner:
+                # the calling operation updates this very collection
+                return
+            if remove:
+                opposite.remove(new_value, False)
+            else:
+                opposite.append(new_value, False)
         else:
             new_value = None if remove else new_value
             current = owner.__getattribute__(opposite_name)  # Force load
